@@ -198,3 +198,58 @@ def u_sum(U):
                M.to_real(o.value) == T.ent(X.wchain(A, ONES, d - 1), 0, 0), axioms=AXW, mode='ematch')
         U.canary('canary-result-is-zero', p, M.to_real(o.value) == 0, axioms=AXW)
     U.lemmas.append('L-SUMPROD: the end of the chain of mode sums = sum over all multi-indices of the entries (cited)')
+
+
+# ----------------------------------------------------------------------------------------------
+# transformation.full for tensors of d = 2 and d = 3 cores (the result has ndim = d: a symbolic d is outside the value model)
+#
+# Postconditions: the result is a d-dimensional array of shape (n_1, ..., n_d) - every mode axis is kept, also those of length 1,
+# exactly the two boundary rank axes are removed - and its entry at every multi-index i is val(Y, i) (first sentence of C01).
+# Not covered: d >= 4 (same code path, bounded suite), rounding, memory layout / dtype of the result.
+
+AXF = T.axioms('shape', 'chain')
+
+
+def _full_unit(U, d):
+    fn = U.func('transformation', 'full')
+    ex = U.executor(fn, axioms=AXF)
+    ex.mode = 'ematch'
+    st = U.state()
+    A = z3.Const('Y', T.TT)
+    items = [M.mk_core(A[k]) for k in range(d)]
+    Y = st.alloc(VList(items))
+    st.vars.update(Y=Y)
+    dd = z3.IntVal(d)
+    res = U.run(ex, st, pre=[T.wf(A, dd)])
+    U.cover('precondition-satisfiable', U.pre, axioms=AXF)
+    ix = z3.Const('ix', T.IDX)
+    for p, o in res:
+        if o.kind != 'return':
+            U.post('no-exception', p, False, axioms=AXF, mode='ematch')
+            continue
+        Rv = p.deref(o.value)
+        U.post('argument-list-untouched', p, z3.BoolVal(len(p.heap[Y.oid].items) == d and all(a is b for a, b in zip(p.heap[Y.oid].items, items))))
+        U.post('result-is-an-array', p, z3.BoolVal(isinstance(Rv, VArr)))
+        if not isinstance(Rv, VArr):
+            continue
+        U.post('result-has-one-axis-per-mode (axes of length 1 are kept, only the two boundary rank axes are dropped)', p, z3.BoolVal(Rv.ndim == d))
+        if Rv.ndim == d:
+            U.post('shape-is-the-tuple-of-mode-sizes', p, z3.And([Z(Rv.shape[k]) == T.d1(A[k]) for k in range(d)]), axioms=AXF, mode='ematch')
+        ok = Rv.tag == 'tdot' and Rv.lead is not None and Rv.trail is not None and len(Rv.t) == d
+        U.post('result-is-the-contraction-of-all-cores-with-both-rank-axes-dropped', p, z3.BoolVal(ok))
+        if not ok:
+            continue
+        ctx = list(p.pc) + [T.index_ok(ix, A, dd)]
+        ent = X.tdot_entry(Rv, [ix[k] for k in range(d)])
+        U.post('entry-at-every-multi-index-is-the-chained-entry', ctx, ent == val(A, ix, dd), axioms=AXF, mode='ematch')
+        U.canary('canary-entry-is-zero', ctx, ent == 0, axioms=AXF)
+
+
+@unit('transformation.full.d2', props=('C01',))
+def u_full2(U):
+    _full_unit(U, 2)
+
+
+@unit('transformation.full.d3', props=('C01',))
+def u_full3(U):
+    _full_unit(U, 3)
